@@ -16,7 +16,7 @@ RULE = ("Hypothesis-generated configurations over strategies 0-5 with AppEff 30-
         "without; distinct = configuration hash.")
 ASSUMPTIONS = [
     "the threshold decision is checked against the library's own depletion D and available water T (exact), D and T themselves are compared with an independent root-zone sum within 0.01 mm x compartments (+2 % of the water above field capacity, the library's rounding of the root depth)",
-    "the growth stage (1-4) used to select the threshold is the library's input to the decision; it is checked to be in 1..4 and non-decreasing within a season",
+    "the growth stage (1-4) that selects the threshold is recomputed independently from the crop calendar (time since planting, in days or degree days, less the time lost before germination; the germination flag is read from the model state) and compared with the stage the decision used",
     "the day's curve-number runoff (an input of the depletion estimate) is taken from the decision's inputs; rain, days after planting, step index and yesterday's potential ET are checked against the tables / the harness's weather copy",
 ]
 BUDGET = {"quick": 320, "thorough": 6000}
@@ -59,6 +59,8 @@ def evaluate(cfg):
     res.evals = int(n)
     applied = {}           # season -> total so far (reference bookkeeping)
     last_stage = {}
+    delayed = {}           # season -> [days, degree days] lost before germination (reference bookkeeping)
+    ref_stage_prev = {}    # season -> growth stage at the end of the previous in-season day (reference)
     n_app = n_noapp = 0
     for i in range(n):
         a, r = tr.irr_calls[i]
@@ -93,6 +95,10 @@ def evaluate(cfg):
             last_stage[k] = 0
         so_far = applied.get(k, 0.0)
         stage = 1 if dap == 1 else int(a[8])
+        if dap > 1 and k in ref_stage_prev and int(a[8]) != ref_stage_prev[k]:
+            res.fail("growth_stage_reference", tag + "the decision uses growth stage %r; the crop calendar gives stage %d for the end of the previous day "
+                     "(time since planting less the %s days / %.1f degree days lost before germination)" % (a[8], ref_stage_prev[k], delayed[k][0], delayed[k][1]))
+            break
         if method == 1:
             if stage not in (1, 2, 3, 4) or stage < last_stage.get(k, 0):
                 res.fail("growth_stage", tag + "growth stage %r (previous %r)" % (a[8], last_stage.get(k)))
@@ -129,6 +135,17 @@ def evaluate(cfg):
         if abs(cum_out - applied[k]) > 1e-9 * max(1.0, applied[k]):
             res.fail("cumulative", tag + "cumulative irrigation %.9g != sum of applications %.9g" % (cum_out, applied[k]))
             break
+        # ---- reference growth stage at the end of this day (used by tomorrow's decision) --------------------------
+        if dap == 1:
+            delayed[k] = [0, 0.0]
+        if not tr.post[i]["germination"]:
+            delayed[k][0] += 1
+            delayed[k][1] += float(gr[i, G["gdd"]])
+        c_ = crops[k]
+        t_adj = (dap - delayed[k][0]) if int(c_.CalendarType) == 1 else (float(gr[i, G["gdd_cum"]]) - delayed[k][1])
+        ref_stage_prev[k] = 1 if t_adj <= float(c_.Canopy10Pct) else 2 if t_adj <= float(c_.MaxCanopy) else 3 if t_adj <= float(c_.Senescence) else 4
+        if delayed[k][0] > 0:
+            L.add("delayed_germination")
         if I > 0:
             n_app += 1
         else:
